@@ -130,3 +130,40 @@ def empty_range(ctx, fx, files, rule="R-EMPTYRANGE"):
                                   % (st[3], field.rsplit("::", 1)[-1], field.rsplit("::", 1)[-1], bad), fn.file, st[3])
     ctx.instance(rule + ".ranges", n)
     return n
+
+
+# ------------------------------------------------------------------ R-PANICSAFE.len
+def len_committed_per_item(ctx, fx, files, rule="R-PANICSAFE.len", only=None):
+    """a loop that pulls items from a caller-supplied iterator (`Iterator::next` on a generic type: arbitrary user code
+    that may panic) and writes them into raw storage keeps the container's length in step: a store to the `len` field
+    lies inside the loop. With `len` committed once after the loop, a panic in the iterator leaves the elements already
+    moved in outside 0..len - they are neither visible nor dropped."""
+    import re as _re
+    from rules.prune import natural_loops
+    n = 0
+    for f in files:
+        for fid in fx.fn_ids(f):
+            if "::tests::" in fid or "{closure" in fid or (only and not only(fid)):
+                continue
+            fn = Fn(fx.raw(fid))
+            for h, body in natural_loops(fn):
+                nxt = [c for b, c in fn.calls() if b in body and c["f"].endswith("Iterator::next")]
+                wr = [c for b, c in fn.calls() if b in body and _re.search(r"ptr::write$|::write$|write_unaligned$", c["f"])]
+                if not (nxt and wr):
+                    continue
+                n += 1
+                ctx.analysed_fns.add(fid)
+                stores = [st[3] for (b, i), st in fn.iter_locs() if b in body and st[0] == "a" and len(st[1]) > 1
+                          and isinstance(st[1][-1], str) and _re.search(r"::(len|length|size|count)$", st[1][-1])]
+                # a guard object that fixes the length on drop (SetLenOnDrop) is the other accepted form
+                guard = any(_re.search(r"SetLenOnDrop|LenGuard|set_len", c["f"]) for b, c in fn.calls() if b in body)
+                ok = bool(stores) or guard
+                ctx.obligation(rule, fid, "length kept in step with raw writes", ok,
+                               sample={"fn": fid, "next_line": nxt[0]["ln"], "write_line": wr[0]["ln"], "len_stores_in_loop": stores[:2]})
+                if not ok:
+                    ctx.violation(rule, fid, "length committed after the loop",
+                                  "%s moves items from a caller-supplied iterator into raw storage (line %d) but stores the length only "
+                                  "after the loop: if the iterator panics, the items already written are outside 0..len, invisible and "
+                                  "never dropped" % (fid.rsplit("::", 1)[-1], wr[0]["ln"]), fn.file, wr[0]["ln"])
+    ctx.instance(rule + ".loops", n)
+    return n
